@@ -244,7 +244,14 @@ def run(ctx):
     ctx.exhaustive["corruption_position_of_two_fixed_messages"] = True
     n = 300 if ctx.quick else 10000
     max_blocks = 3 if ctx.quick else 40
+    from lib import sched
+    inj = sched.YieldInjector(["secsgem/secsi/protocol.py", "secsgem/common/byte_queue.py", "secsgem/common/protocol_dispatcher.py"])
+    inj.install()
+    sigs = set()
     for i in range(n):
+        injecting = i % 3 == 0
+        if injecting:
+            inj.begin(rng.getrandbits(32), p=rng.choice([0.1, 0.3]))
         src = "H" if i % 2 == 0 else "E"
         nb = rng.choice([0, 1, 1, 2, 3]) if rng.random() < 0.8 else rng.randint(1, max_blocks)
         body_len = 0 if nb == 0 else rng.choice([1, 243, 244]) if nb == 1 and rng.random() < 0.5 else max(1, nb * 244 - rng.randint(0, 243))
@@ -263,7 +270,13 @@ def run(ctx):
         if i < 2:
             ctx.sample({"direction": src, "body_len": body_len, "chunking": kind, "corrupt(block,offset,mask)": corrupt})
         res = _transfer(ctx, line, src, body_len, rng.choice(header_only), rng.random() < 0.5, corrupt=corrupt)
+        if injecting:
+            sig, yields, _ = inj.end()
+            sigs.add(sig)
+            ctx.count("yields_injected", yields)
         if res == "dead":
             line = _new_line()
+    inj.uninstall()
+    ctx.count("interleaving.distinct_signatures", len(sigs))
     for end in line.ends.values():
         end.close(2.0)
